@@ -10,7 +10,7 @@ GENERATORS = {'gen_c11': 'NautilusVerif/Generated/C11.lean', 'gen_c08': 'Nautilu
 MODULES = ['nvdriver', 'NautilusVerif.Properties.C16', 'NautilusVerif.Properties.C16Tie', 'NautilusVerif.Properties.C14',
            'NautilusVerif.Properties.C14Tie',
            'NautilusVerif.Properties.C15', 'NautilusVerif.Properties.C13', 'NautilusVerif.Properties.C01',
-           'NautilusVerif.Properties.C02', 'NautilusVerif.Properties.C03', 'NautilusVerif.Properties.C10', 'NautilusVerif.Properties.C12', 'NautilusVerif.Properties.C09Tie', 'NautilusVerif.Properties.C05', 'NautilusVerif.Properties.C05Tie', 'NautilusVerif.Properties.C06', 'NautilusVerif.Properties.C07', 'NautilusVerif.Properties.C07Tie', 'NautilusVerif.Properties.C08', 'NautilusVerif.Properties.C08Tie', 'NautilusVerif.Properties.C11', 'NautilusVerif.Properties.C11Tie']
+           'NautilusVerif.Properties.C02', 'NautilusVerif.Properties.C03', 'NautilusVerif.Properties.C10', 'NautilusVerif.Properties.C12', 'NautilusVerif.Properties.C09Tie', 'NautilusVerif.Properties.C05', 'NautilusVerif.Properties.C05Tie', 'NautilusVerif.Properties.C06', 'NautilusVerif.Properties.C07', 'NautilusVerif.Properties.C07Tie', 'NautilusVerif.Properties.C08', 'NautilusVerif.Properties.C08Tie', 'NautilusVerif.Properties.C11', 'NautilusVerif.Properties.C11Tie', 'NautilusVerif.Properties.C04']
 
 
 def main():
